@@ -166,6 +166,74 @@ type cmp struct {
 	sch   *Schema
 	binds bindTable
 	c     *conc
+	// positions (dotted, below the argument) whose value is an input FIELD default the generated code
+	// injected, i.e. a value the generator rendered into Go source; all: every position is (directive arguments)
+	dfl [][]string
+	all bool
+	// differences that are exactly "the rendered default kept 6 decimals" at such a position
+	sixDec []string
+}
+
+// rendered: the position `path` ("x.o.n", "x[0].w[1]") lies at or below a rendered default
+func (m *cmp) rendered(path string) bool {
+	if m.all {
+		return true
+	}
+	p := strings.NewReplacer("[", ".", "]", "").Replace(path)
+	if i := strings.IndexByte(p, '.'); i >= 0 {
+		p = p[i+1:]
+	} else {
+		p = ""
+	}
+	for _, d := range m.dfl {
+		q := strings.Join(d, ".")
+		if p == q || strings.HasPrefix(p, q+".") {
+			return true
+		}
+	}
+	return false
+}
+
+// matchKind compares a value of the carrier-observing scalar K ("<Go type>:<value>").
+func (m *cmp) matchKind(v *Val, o *CT, path string) string {
+	diff := func(want string) string {
+		return fmt.Sprintf("at %s: specification %s, the scalar's unmarshaler was handed %s", path, want, o.String())
+	}
+	if v.T == "absent" || v.T == "null" {
+		if o.K != "null" {
+			return diff(v.T)
+		}
+		return ""
+	}
+	if o.K != "str" {
+		return diff(v.String())
+	}
+	i := strings.IndexByte(o.S, ':')
+	if i < 0 {
+		return diff(v.String())
+	}
+	typ, txt := o.S[:i], o.S[i+1:]
+	switch v.T {
+	case "int":
+		want := m.c.num(v.C)
+		if (typ == "int64" || typ == "int" || typ == "json.Number") && !strings.ContainsAny(txt, ".eE") && sameNumber(txt, want) {
+			return ""
+		}
+		return diff("the integer " + want)
+	case "flt", "fx":
+		want := m.c.flt(v)
+		isFloat := typ == "float64" || (typ == "json.Number" && strings.ContainsAny(txt, ".eE"))
+		if isFloat && sameFloat(txt, want) {
+			return ""
+		}
+		if !isFloat && sameFloat(txt, want) {
+			return diff("the FLOAT " + want + " (a float64, as for a Float written in a document)")
+		}
+		return diff("the float " + want)
+	case "any":
+		return ""
+	}
+	return fmt.Sprintf("at %s: specification value %s cannot be compared for scalar K", path, v.T)
 }
 
 func sameNumber(a, b string) bool {
@@ -191,6 +259,9 @@ func (m *cmp) match(t *Type, v *Val, o *CT, path string) string {
 	if t == nil {
 		anyTyped = true
 	}
+	if t != nil && t.K == "n" && t.N == "K" {
+		return m.matchKind(v, o, path)
+	}
 	switch v.T {
 	case "any":
 		return ""
@@ -199,7 +270,7 @@ func (m *cmp) match(t *Type, v *Val, o *CT, path string) string {
 			return diff(v.T)
 		}
 		return ""
-	case "int", "flt":
+	case "int", "flt", "fx":
 		want := ""
 		if v.T == "int" {
 			want = m.c.num(v.C)
@@ -207,7 +278,7 @@ func (m *cmp) match(t *Type, v *Val, o *CT, path string) string {
 			want = m.c.flt(v)
 		}
 		same := sameNumber
-		if v.T == "flt" {
+		if v.T != "int" {
 			same = sameFloat // a float is compared as the float64 it denotes
 		}
 		if o.K == "num" && same(o.S, want) {
@@ -215,6 +286,14 @@ func (m *cmp) match(t *Type, v *Val, o *CT, path string) string {
 		}
 		if anyTyped && o.K == "str" && same(o.S, want) {
 			return ""
+		}
+		if v.T != "int" && o.K == "num" && m.rendered(path) {
+			// the signature of ONE defect: the default was written into the generated source with "%f"
+			w, _ := strconv.ParseFloat(want, 64)
+			if g, err := strconv.ParseFloat(o.S, 64); err == nil && g != w && g == sixDecimals(w) {
+				m.sixDec = append(m.sixDec, fmt.Sprintf("at %s: the schema's default is %s, received %s", path, want, o.S))
+				return ""
+			}
 		}
 		return diff("the number " + want)
 	case "nstr":
